@@ -691,6 +691,12 @@ func (f *Frame) loopHeader(li *loopInfo) {
 	for _, k := range ks {
 		s, known := vc.cellSort[k]
 		if !known {
+			if ds := vc.sortOfCellKey(k); ds != "" && strings.HasPrefix(ds, "(Array Int ") {
+				s, known = ds, true
+				vc.cellSort[k] = ds
+			}
+		}
+		if !known {
 			// never materialised so far: later reads must not see the entry-state constant
 			f.cur.cellGen[k] = vc.nextGen()
 			delete(f.cur.cells, k)
@@ -722,6 +728,10 @@ func (f *Frame) loopHeader(li *loopInfo) {
 		aliveEntry := f.getCell(f.entry, "ghost:alive", aliveSort)
 		for _, k := range ks {
 			srt, known := vc.cellSort[k]
+			if !known && k == "ghost:iterpos" { // created inside the loop body before it was ever read
+				srt, known = "(Array Int Int)", true
+				vc.cellSort[k] = srt
+			}
 			if !known || declared[k] || !(strings.HasPrefix(k, "H:") || strings.HasPrefix(k, "D:") || strings.HasPrefix(k, "M:") || k == "ghost:iterpos") || !strings.HasPrefix(srt, "(Array Int ") {
 				continue
 			}
